@@ -289,6 +289,10 @@ def subprocess_timeout():
     return subprocess.TimeoutExpired
 
 
+REPLAYS = os.environ.get('VERIF_REPLAY_DIR') or os.path.join(VERIF, 'replays')
+# experiments only (harness/mutsweep.py): correspondence and oracles with the driver as built, no rebuild, no proof audit
+NO_BUILD = bool(os.environ.get('VERIF_NO_BUILD'))
+
 SOURCE_PINNED = {'C08', 'C09', 'C10', 'C11', 'C13', 'C14', 'C17', 'C18', 'C19', 'C20'}
 
 
@@ -298,6 +302,8 @@ def run_check(prop, tier, seed, workdir, t_start, jobs):
                                  f'{prop}.json')
     problems = []      # broken obligations (strings)
     lock = common.BuildLock()
+    if NO_BUILD:
+        return run_correspondence(prop, tier, seed, workdir, t_start, jobs, mod, evidence_path, problems, {}, 0, 0, ['(no build)'], '')
     lock.__enter__()
     try:
         # 1. regenerate the Lean files that are TRANSLATED from the repository (JSON schemas, scoring tables): every run
@@ -384,6 +390,12 @@ def run_check(prop, tier, seed, workdir, t_start, jobs):
             os.environ['VERIF_DRIVER'] = os.path.join(workdir, 'driver')
     finally:
         lock.__exit__()
+    return run_correspondence(prop, tier, seed, workdir, t_start, jobs, mod, evidence_path, problems, audit_res, obligations,
+                              discharged, targets, out)
+
+
+def run_correspondence(prop, tier, seed, workdir, t_start, jobs, mod, evidence_path, problems, audit_res, obligations,
+                       discharged, targets, out):
     # 4. correspondence
     if not os.path.exists(os.environ.get('VERIF_DRIVER') or common.DRIVER):
         raise Infra('model driver could not be built:\n' + out[-2000:])
@@ -463,7 +475,7 @@ def run_check(prop, tier, seed, workdir, t_start, jobs):
     for key, text in known_hits.items():
         print(f'KNOWN-FINDING: property={prop} key={key} {text}')
     rc = 0
-    os.makedirs(os.path.join(VERIF, 'replays'), exist_ok=True)
+    os.makedirs(REPLAYS, exist_ok=True)
     seen_keys = set()
     nrep = 0
     for v in violations:
